@@ -5,6 +5,9 @@ import re
 from .. import dataflow as df
 from ..facts import Site, op_local, const_int
 
+# both backends are already analysed from their own build shapes (the workspace shape has no fjall backend)
+WORKSPACE_PASS = False
+
 EXPLANATION = (
     "Static analysis over rustc's promoted MIR (engine from the RocksDB-free shape; rocksdb.rs from the full workspace shape). C08.a a recomputed "
     "firewall/projection writes its new value into the very batch that received its dirty marks. C08.b a session's epoch record, inputs and dirty marks "
